@@ -44,7 +44,8 @@ def case_st(draw):
             "exact": exact, "region": draw(st.sampled_from(["some", "some", "some", "none", "all", "tiny"])),
             "size_as": draw(st.sampled_from(["Q", "A0"])), "extra_same": draw(st.booleans()),
             "extra_other": draw(st.booleans()), "with_part": draw(st.booleans()),
-            "aspect": [draw(st.sampled_from([0.5, 1.0, 2.0])) for _ in range(3)]}
+            "aspect": [draw(st.sampled_from([0.5, 1.0, 2.0])) for _ in range(3)],
+            "box_units": [pu if exact else draw(st.sampled_from(LU)) for _ in range(3)]}
 
 
 def _snap_ds(ds):
@@ -128,7 +129,15 @@ def extract(case, r):
                 sub = osyris.extract_sphere(ds, radius=mk_size(size), origin=origin)
             else:
                 sizes = [size * a for a in case["aspect"]]
-                sub = osyris.extract_box(ds, dx=mk_size(sizes[0]), dy=mk_size(sizes[1]), dz=mk_size(sizes[2]), origin=origin)
+                bu = case.get("box_units") or [case["su"]] * 3
+
+                def mk_box(v, unit):
+                    vv = v * fsu / um.parse(unit)[0]           # the same physical size expressed in this axis' unit
+                    return vv * osyris.units(unit) if case["size_as"] == "Q" else osyris.Array(values=vv, unit=unit)
+                sub = osyris.extract_box(ds, dx=mk_box(sizes[0], bu[0]), dy=mk_box(sizes[1], bu[1]),
+                                         dz=mk_box(sizes[2], bu[2]), origin=origin)
+                if len(set(bu)) > 1:
+                    r.label("box_sizes_in_different_units")
         except Exception as e:
             r.bad(["raises", kind, type(e).__name__], f"{e!r}; groups {list(ds.keys())}")
             return
